@@ -230,13 +230,13 @@ func (e *Engine) intrinsic(s *State, f *Frame, call *ssa.Call, fn *ssa.Function,
 	case "crypto/sha512.Sum384":
 		cells := e.bytesOfSlice(s, args[0])
 		e.Stubs["sha384: uninterpreted per-byte fold"] = true
-		st := hashFold("sha384", BVInt(0x384, 64), cells)
+		st := hashFold("sha384", BVUint(0xcbbb9d5dc1059ed8, 64), cells) // same start as a fresh sha512.New384()
 		set(cellsToArray(hashOut("sha384", st, 48)))
 		return true
 	case "crypto/sha256.Sum256":
 		cells := e.bytesOfSlice(s, args[0])
 		e.Stubs["sha256: uninterpreted per-byte fold"] = true
-		st := hashFold("sha256", BVInt(0x256, 64), cells)
+		st := hashFold("sha256", BVUint(0x6a09e667, 64), cells) // same start as a fresh sha256.New()
 		set(cellsToArray(hashOut("sha256", st, 32)))
 		return true
 	case "(*crypto/sha512.digest).Write", "(*crypto/sha256.digest).Write":
